@@ -119,6 +119,11 @@ struct EncRun {
           }
         }
         vorbis_bitrate_addblock(&vb);
+        { // C14 anchor state, white-box: the hard-limit reservoir's fill level stays within [0, reservoir_bits] after every block (this is what the
+          // black-box window sums below follow from; read directly it has no rounding or boundary allowance to hide a small excess in)
+          private_state *bs = (private_state *)vd.backend_state; bitrate_manager_info *bi = &((codec_setup_info *)vi.codec_setup)->bi;
+          if (bs && bs->bms.managed && (bi->max_rate > 0 || bi->min_rate > 0) && bi->reservoir_bits > 0) { long r = bs->bms.minmax_reservoir; g_stats.inc("probe.reservoir_level_read");
+            check(r >= 0 && r <= bi->reservoir_bits, "reservoir", "fill-level-outside-range", fmt("after packet %zu: minmax_reservoir=%ld, reservoir_bits=%ld (max=%ld min=%ld bit/s)", out.audio.size(), r, bi->reservoir_bits, bi->max_rate, bi->min_rate), {{"stub", stub ? "1" : "0"}, {"side", r < 0 ? "under" : "over"}}); } }
         ogg_packet op; while (vorbis_bitrate_flushpacket(&vd, &op)) { Pkt p = pkt_from_op(op); p.bs = vb.W ? out.bs1 : out.bs0; out.audio.push_back(std::move(p)); }
       }
     };
